@@ -26,7 +26,8 @@ RULE = ('cases = AE configuration (every subset of 2 served SOP classes x every 
         'incl. up to 128 contexts; every case = one real association whose A-ASSOCIATE-AC is '
         'parsed by R-codec + a probe message on every accepted context + a probe association '
         'for refused/unknown ids; non-trivial = at least one context refused or several TS; '
-        'distinct = distinct (configuration, request)')
+        'distinct = distinct (configuration, request)'
+        '; hot family: 2-3 requestors negotiating with a fresh entity at once under line-level pre-emption, each using its first accepted context immediately with a file-backed C-STORE; re-proposal of an accepted id for an unserved class in a second association')
 ASSUMPTIONS = ['result code of a refused context is only required to be non-zero',
                'the probe on a refused id may end the association in any way; the requirement is '
                'that no service callable runs']
